@@ -347,6 +347,13 @@ func Generate(r *rand.Rand, sz Size) *Model {
 					for v.K == "ref" || v.K == "or" {
 						v = g.scalar(false) // a reference may lead to an object: "the multi-level property is not allowed in the Path directive"
 					}
+					if r.Intn(3) == 0 {
+						// a rule that creates unnamed types inside the schema: they have to travel with the piece of the path
+						v = &S{K: "int", Lit: fmt.Sprint(1 + r.Intn(99)), Rules: []Rule{{Name: "or", Or: []OrItem{{Type: "integer"}, {Type: "string"}}}}}
+						if r.Intn(2) == 0 {
+							v.Rules = []Rule{{Name: "or", Or: []OrItem{{Type: "integer", Sub: []Rule{{Name: "min", Val: "0"}}}, {Type: "string", Sub: []Rule{{Name: "maxLength", Val: "9"}}}}}}
+						}
+					}
 				} else if r.Intn(2) == 0 {
 					v = &S{K: "int", Lit: fmt.Sprint(1 + r.Intn(99)), Note: g.note()}
 					if r.Intn(2) == 0 {
